@@ -15,7 +15,7 @@ RULE = ("Gap: all ordered pairs of the 21 well-formed ranges over {0,1,2,2^63,2^
         "of 1-6 blocks with 0-4 bridges and 0-4 claims per block (empty blocks allowed, a fifth with unsorted event lists, a quarter with "
         "event counts at which the exact rational size is an integer so the float64 rounding decides), retry/non-retry, pp/fep/other; "
         "per layout: Range on every prefix, suffix, and random (f,t) around the borders; limitCertSize with limit 0, 1 and size-1/size/size+1 "
-        "of EVERY prefix; AdaptCertificate with every last-block limit from from-2 to to+2, 0 and 2^64-1 with random allow/require flags; "
+        "of EVERY prefix, each such case also through the real baseFlow.GetCertificateBuildParamsInternal (kind flow: stub storage / L2 syncer make it build that very certificate before it cuts); AdaptCertificate with every last-block limit from from-2 to to+2, 0 and 2^64-1 with random allow/require flags; "
         "plus a malformed stream (events outside the range, inverted ranges) checked model-vs-code only. "
         "A case is non-trivial when the real code actually cut the certificate (returned last block < input last block), "
         "or returned an error, or (gap) the ranges do not touch; distinct = distinct input")
@@ -68,7 +68,7 @@ def coq_case(o):
     res = pobs(o.get("res"))
     if k == "range":
         return "CRange %s %s %s %s %s %s %s" % (params(i["c"]), cN(i["f"]), cN(i["t"]), cN(o["in_size"]), cZ(o["in_nblocks"]), res, err)
-    if k == "limit":
+    if k in ("limit", "flow"):
         return "CLimit %s %s %s %s %s %s %s" % (params(i["c"]), cN(i["max"]), cN(o["in_size"]), cZ(o["in_nblocks"]),
                                                 clist([cN(s) for s in o["sizes"]]), res, err)
     if k == "adapt":
@@ -114,7 +114,7 @@ def finding_key(o):
 def distribution(outs):
     d = {"range": 0, "range_err": 0, "limit": 0, "limit_cut": 0, "limit_single_block_over_limit": 0, "limit_unlimited": 0,
          "adapt": 0, "adapt_cut": 0, "adapt_err": 0, "adapt_retry": 0, "gap": 0, "gap_touching": 0, "gap_nonempty": 0,
-         "malformed": 0, "float_edge_layouts": 0, "endpoint_0": 0, "endpoint_max": 0}
+         "malformed": 0, "float_edge_layouts": 0, "endpoint_0": 0, "endpoint_max": 0, "flow": 0}
     m64 = 2 ** 64 - 1
     for o in outs:
         i = o["in"]
@@ -143,7 +143,9 @@ def distribution(outs):
         r = o.get("res")
         if k == "range" and o["err"]:
             d["range_err"] += 1
-        if k == "limit":
+        if k in ("limit", "flow"):
+            if k == "flow":
+                d["limit_through_GetCertificateBuildParamsInternal"] = d.get("limit_through_GetCertificateBuildParamsInternal", 0) + 1
             if i["max"] == 0:
                 d["limit_unlimited"] += 1
             if r and r["to"] < c["to"]:
